@@ -21,7 +21,7 @@ CHUNK = {"quick": 40, "thorough": 200}
 PROBES = ["header_straddles_chunk", "offset_0", "block_cut_by_eof", "key_00", "decoy_lower_priority_first_in_file",
           "xorencoded_B_mod4_nonzero", "all_keys_fallback_used", "custom_key_list", "expect_valueerror",
           "two_blocks_same_key", "block_in_stub_raw_view_only", "raw_stub_block_under_higher_priority_key", "from_path", "from_file_nonzero_cursor", "tiny_chunk", "container_pe",
-          "container_xorpe", "near_miss_filler", "block_in_last_7_bytes"]
+          "container_xorpe", "near_miss_filler", "block_in_last_7_bytes", "defaults_left_out_of_the_call"]
 RULE = ("seeded plans: container in {raw, PE .data, XorEncoded PE} x 0-3 config blocks (settings lists of 1-40 records, "
         "XOR key any of 0x00-0xff) at offsets biased to 0, 1, m*B-7..m*B+1, EOF-4096, EOF-len, EOF-7 x filler kind "
         "(zeros, 0xff, random, key byte, text, near-miss headers) x call (from_bytes/from_file/from_path, default or "
@@ -148,7 +148,10 @@ def generate(rng, tier, index):
         "filler": {"kind": fkind, "seed": rng.getrandbits(24), "key": (blocks[0]["key"] if blocks else 0x69)},
         "blocks": blocks, "cut": cut,
         "call": {"entry": rng.choice(["from_bytes", "from_file", "from_file", "from_path"]), "xor_keys": xor_keys,
-                 "all": keys_mode == "all", "initial_pos": rng.choice([0, 0, 1, 777, 10 ** 6])},
+                 "all": keys_mode == "all", "initial_pos": rng.choice([0, 0, 1, 777, 10 ** 6]),
+                 # arguments that have their default value are left out of the call (the documented defaults are part of
+                 # the interface: default keys 0x69, 0x2e, 0x00 and no all-keys fallback)
+                 "omit_defaults": rng.random() < 0.5},
     }
     if pe:
         plan["pe"] = pe
@@ -248,19 +251,26 @@ def execute(plan: dict) -> Result:
     budget = Budget(400 * len(raw) + 5_000_000 + nkeys * 2 * (len(raw) // B + 1) * 60)
     got = None
     path = None
+    kw = {"xor_keys": keys, "all_xor_keys": call["all"]}
+    if call.get("omit_defaults"):
+        if keys is None:
+            del kw["xor_keys"]
+        if not call["all"]:
+            del kw["all_xor_keys"]
+        res.probes["defaults_left_out_of_the_call"] += 1
     with IoSeam(buffer_size=B, budget=budget) as seam:
         try:
             if call["entry"] == "from_bytes":
-                bc = BeaconConfig.from_bytes(raw, xor_keys=keys, all_xor_keys=call["all"])
+                bc = BeaconConfig.from_bytes(raw, **kw)
             elif call["entry"] == "from_file":
                 fh = seam.file(raw)
                 fh.seek(call["initial_pos"])
-                bc = BeaconConfig.from_file(fh, xor_keys=keys, all_xor_keys=call["all"])
+                bc = BeaconConfig.from_file(fh, **kw)
             else:
                 path = os.path.join(_scratch_dir(), f"img-{os.getpid()}.bin")
                 with open(path, "wb") as f:
                     f.write(raw)
-                bc = BeaconConfig.from_path(path, xor_keys=keys, all_xor_keys=call["all"])
+                bc = BeaconConfig.from_path(path, **kw)
             got = ("block", bc)
         except ValueError as e:
             got = ("ValueError", str(e))
